@@ -924,3 +924,64 @@ def _cmp_key(ty, v):
 
 def same_value(tree, a, b):
     return _cmp_key(tree, a) == _cmp_key(tree, b)
+
+
+# =================================================================================================
+# self test (fixed vectors; a disagreement is a harness error, not a finding)
+# =================================================================================================
+_T = lambda n: {"t": n}  # noqa: E731
+_VECTORS = [
+    ("'it''s'", _T("text"), "it's"),
+    ("$$a'b$$", _T("text"), "a'b"),
+    ("-12", _T("int"), -12),
+    ("1.50", _T("decimal"), [0, "150", -2]),
+    ("1E+400", _T("decimal"), [0, "1", 400]),
+    ("NaN", _T("double"), "nan"),
+    ("-Infinity", _T("double"), "-inf"),
+    ("1e16", _T("double"), 1e16),
+    ("0xCAFE", _T("blob"), "cafe"),
+    ("true", _T("boolean"), True),
+    ("1577934245678", _T("timestamp"), 1577934245678),
+    ("'2020-01-02 03:04:05.678+0000'", _T("timestamp"), 1577934245678),
+    ("'2020-01-02T03:04:05.678Z'", _T("timestamp"), 1577934245678),
+    ("'1970-01-01'", _T("date"), 0),
+    ("2147483648", _T("date"), 0),
+    ("'0001-01-01'", _T("date"), -719162),
+    ("'00:00:01.000000001'", _T("time"), 1000000001),
+    ("'::ffff:1.2.3.4'", _T("inet"), "::ffff:102:304"),
+    ("1y2mo3w4d5h6m7s8ms9us10ns", _T("duration"), [14, 25, 18367008009010]),
+    ("-PT1H", _T("duration"), [0, 0, -3600000000000]),
+    ("[1, 2]", {"t": "list", "of": _T("int")}, [1, 2]),
+    ("{}", {"t": "map", "k": _T("int"), "v": _T("text")}, []),
+    ("{1: 'a'}", {"t": "frozen", "of": {"t": "map", "k": _T("int"), "v": _T("text")}}, [[1, "a"]]),
+    ("(1, null)", {"t": "tuple", "of": [_T("int"), _T("text")]}, [1, None]),
+    ("{b: 2}", {"t": "udt", "ks": "k", "name": "u", "fields": [["a", _T("int")], ["b", _T("int")]]}, [None, 2]),
+    ("[0.5, 1]", {"t": "vector", "of": _T("float"), "dim": 2}, [0.5, 1.0]),
+]
+_REJECTED = [("'a'", _T("int")), ("1", _T("text")), ("nan", _T("double")), ("0xABC", _T("blob")), ("'999-12-31'", _T("date")),
+             ("[null]", {"t": "list", "of": _T("int")}), ("1.5", _T("int")), ("128", _T("tinyint")), ("'24:00:00'", _T("time")),
+             ("Infinity", _T("decimal"))]
+_NOT_ONE_TERM = ["1 2", "'a' OR 'b'", "x", "1; DROP TABLE t", "'a", "2020-01-01", "[1,]", "{'a': }", "b'00'", "1 -- c\n2", ""]
+
+
+def self_test():
+    for text, tree, want in _VECTORS:
+        ast = parse_term(text)
+        assert parse_term(render(ast)) == ast, text
+        got = denote(ast, tree)
+        assert same_value(tree, got, want), (text, got, want)
+    for text, tree in _REJECTED:
+        try:
+            denote(parse_term(text), tree)
+        except Invalid:
+            continue
+        raise AssertionError("%r should be rejected for %s" % (text, type_name(tree)))
+    for text in _NOT_ONE_TERM:
+        try:
+            parse_term(text)
+        except ValueError:
+            continue
+        raise AssertionError("%r should not parse as one term" % (text,))
+    assert parse_type("map<text, frozen<list<int>>>") == {"t": "map", "k": _T("text"), "v": {"t": "frozen", "of": {"t": "list", "of": _T("int")}}}
+    assert type_name(parse_type('frozen<ks."My Type">')) == 'frozen<ks."My Type">'
+    return True
